@@ -95,6 +95,20 @@ theorem rollbackLoop_ok (C : Content) (w : Wallet) (old tip : BlockId)
           have : decide (c < n + 1) = true := by simp; omega
           simp [this]
 
+/-- The loop's first backend query is for the wallet's own tip height: it only succeeds when the backend is that high. -/
+theorem rollbackLoop_ok_len (C : Content) (w : Wallet) (tip : BlockId) (h : Nat) (rb : Bool) (res : Stamp × Bool)
+    (e : rollbackLoop C w tip h rb = .ok res) : h ≤ tip.length := by
+  cases h with
+  | zero => exact Nat.zero_le _
+  | succ n =>
+    simp only [rollbackLoop] at e
+    split at e
+    · cases e
+    · split at e
+      · cases e
+      · rename_i ch hch
+        exact (getBlockHash_some _ _ _ hch).1
+
 theorem differAbove_top (old tip : BlockId) : DifferAbove old tip old.length := by
   intro k hk hk1 _; omega
 
@@ -108,7 +122,7 @@ theorem rollbackMined_all (mined : List Mined) (n : Nat) (h : ∀ r ∈ mined, r
     nothing is written, or the wallet ends at the last block `c` its chain shares with the backend's: synced-to stamp,
     records of blocks above `c` rolled back, every remembered hash at or below `c` is the best chain's, the
     remembered range `[lo, c]` intact, every mined record on the best chain. -/
-theorem startup_rolls_to_common (cfg : Cfg) {w : Wallet} {old : BlockId} {lo : Nat}
+theorem startup_rolls_to_common_ex (cfg : Cfg) {w : Wallet} {old : BlockId} {lo : Nat}
     (hS : StoppedInv cfg w old lo) (tip : BlockId) :
     (∃ e, startupRollback cfg w tip = .error e) ∨
     (∃ w' c, startupRollback cfg w tip = .ok w' ∧ IsLastCommon old tip c ∧
@@ -117,7 +131,9 @@ theorem startup_rolls_to_common (cfg : Cfg) {w : Wallet} {old : BlockId} {lo : N
         w'.unmined = (if c < old.length then rollbackUnmined w.mined w.unmined (c + 1) else w.unmined) ∧
         (∀ h x, h ≤ c → w'.hashes h = some x → x = some (ancestorAt tip h)) ∧
         (∀ h, lo ≤ h → h ≤ c → w'.hashes h = some (some (ancestorAt tip h))) ∧
-        MinedOn w' tip) := by
+        MinedOn w' tip ∧
+        w'.hashes c = some (some (ancestorAt tip c)) ∧ w'.birthdaySet = w.birthdaySet ∧
+        w'.chainSynced = w.chainSynced ∧ old.length ≤ tip.length) := by
   have hT : w.syncedTo.height = old.length := by rw [hS.tipEq]; rfl
   unfold startupRollback
   rw [hT]
@@ -128,6 +144,7 @@ theorem startup_rolls_to_common (cfg : Cfg) {w : Wallet} {old : BlockId} {lo : N
     obtain ⟨c, c1, c2, c3, c4, c5, c6, c7⟩ :=
       rollbackLoop_ok cfg.C w old tip hS.correct old.length false stamp rb (Nat.le_refl _) (differAbove_top old tip) hloop
     have hcommon : IsLastCommon old tip c := ⟨c1, c2, c4, c5⟩
+    have hlenT : old.length ≤ tip.length := rollbackLoop_ok_len cfg.C w tip old.length false _ hloop
     have hbelow : ∀ h, h ≤ c → ancestorAt old h = ancestorAt tip h :=
       fun h hh => same_hash_same_below old tip c h hh c1 c2 c4
     have hlenc : (ancestorAt tip c).length = c := ancestorAt_length tip c c2
@@ -147,7 +164,7 @@ theorem startup_rolls_to_common (cfg : Cfg) {w : Wallet} {old : BlockId} {lo : N
         simp [hlt] at c7
       have hce : c = old.length := by omega
       rw [if_pos hrb]
-      refine Or.inr ⟨w, c, rfl, hcommon, ?_, ?_, ?_, ?_, ?_, ?_⟩
+      refine Or.inr ⟨w, c, rfl, hcommon, ?_, ?_, ?_, ?_, ?_, ?_, ?_, rfl, rfl, hlenT⟩
       · rw [hS.tipEq, ← c4, hce, ancestorAt_self]
       · rw [rollbackMined_all]
         intro r hr
@@ -163,6 +180,8 @@ theorem startup_rolls_to_common (cfg : Cfg) {w : Wallet} {old : BlockId} {lo : N
           rw [rollbackMined_all]; exact hr
           intro r hr; have := (hS.mined r hr).1; omega
         exact hminedTip r hr'
+      · have hll := hS.lo_le
+        rw [hS.remembered c (by omega) (by omega), hbelow c (Nat.le_refl _)]
     · have hrbt : rb = true := by
         cases hb : rb with
         | true => rfl
@@ -183,7 +202,9 @@ theorem startup_rolls_to_common (cfg : Cfg) {w : Wallet} {old : BlockId} {lo : N
         have f2 : w2.hashes = (putOk cfg.W w stamp).hashes := by rw [← hw2]; split <;> rfl
         have f3 : w2.mined = w.mined := by rw [← hw2]; split <;> rfl
         have f4 : w2.unmined = w.unmined := by rw [← hw2]; split <;> rfl
-        refine Or.inr ⟨_, c, rfl, hcommon, ?_, ?_, ?_, ?_, ?_, ?_⟩
+        have f5 : w2.birthdaySet = w.birthdaySet := by rw [← hw2]; split <;> rfl
+        have f6 : w2.chainSynced = w.chainSynced := by rw [← hw2]; split <;> rfl
+        refine Or.inr ⟨_, c, rfl, hcommon, ?_, ?_, ?_, ?_, ?_, ?_, ?_, f5, f6, hlenT⟩
         · show w2.syncedTo = _
           rw [f1, c3]
         · show rollbackMined w2.mined (c + 1) = _
@@ -214,7 +235,28 @@ theorem startup_rolls_to_common (cfg : Cfg) {w : Wallet} {old : BlockId} {lo : N
             have : r ∈ rollbackMined w2.mined (c + 1) := hr
             rw [f3] at this; exact this
           exact hminedTip r hr'
+        · show w2.hashes c = _
+          rw [f2, putOk_hashes, hsh]
+          have hnp : ¬ (c > cfg.W ∧ c = c - cfg.W) := by
+            rintro ⟨g1, g2⟩
+            have hll := hS.lo_le
+            rcases hS.window with hw | ⟨hw1, hw2⟩ <;> omega
+          rw [if_neg hnp, if_pos rfl, hshash]
       · rw [e]; exact Or.inl ⟨err, rfl⟩
+
+theorem startup_rolls_to_common (cfg : Cfg) {w : Wallet} {old : BlockId} {lo : Nat}
+    (hS : StoppedInv cfg w old lo) (tip : BlockId) :
+    (∃ e, startupRollback cfg w tip = .error e) ∨
+    (∃ w' c, startupRollback cfg w tip = .ok w' ∧ IsLastCommon old tip c ∧
+        w'.syncedTo = stampOf cfg.C (ancestorAt tip c) ∧
+        w'.mined = rollbackMined w.mined (c + 1) ∧
+        w'.unmined = (if c < old.length then rollbackUnmined w.mined w.unmined (c + 1) else w.unmined) ∧
+        (∀ h x, h ≤ c → w'.hashes h = some x → x = some (ancestorAt tip h)) ∧
+        (∀ h, lo ≤ h → h ≤ c → w'.hashes h = some (some (ancestorAt tip h))) ∧
+        MinedOn w' tip) := by
+  rcases startup_rolls_to_common_ex cfg hS tip with h | ⟨w', c, h1, h2, h3, h4, h5, h6, h7, h8, _⟩
+  · exact Or.inl h
+  · exact Or.inr ⟨w', c, h1, h2, h3, h4, h5, h6, h7, h8⟩
 
 /-- When does it succeed?  The backend must have every height the loop asks for, the common block must still be
     remembered, and (if a rollback is needed) so must its predecessor. -/
